@@ -19,7 +19,7 @@ from .engine import Ctx, Obl
 from .kinds import Unsupported, KindError, V, VBool, VInt, VObj, VOpt, VRec, VSeq, VTuple, VVal
 
 TIMEOUT_MS = int(os.environ.get("PYVC_TIMEOUT_MS", "60000"))
-OUT = os.path.join(os.path.dirname(os.path.dirname(os.path.abspath(__file__))), "out")
+OUT = os.environ.get("PYVC_OUT") or os.path.join(os.path.dirname(os.path.dirname(os.path.abspath(__file__))), "out")
 
 
 def load_sidecars(mods):
@@ -31,11 +31,11 @@ def load_sidecars(mods):
             importlib.import_module(m)
 
 
-def check(pc, goal, timeout_ms=None, want_model=True, tracked=False):
+def check(pc, goal, timeout_ms=None, want_model=True, tracked=False, mbqi=False):
     s = z3.Solver()
     s.set("timeout", timeout_ms or TIMEOUT_MS)
     s.set("random_seed", 0)
-    s.set("mbqi", False)
+    s.set("mbqi", mbqi)
     for i, p in enumerate(pc):
         if tracked and not z3.is_quantifier(p):
             # portfolio variant: tracked assertions go through a different (less aggressive)
@@ -54,16 +54,96 @@ def check(pc, goal, timeout_ms=None, want_model=True, tracked=False):
     return str(r), dt, model, s
 
 
-def fallback(solver: z3.Solver, name: str, budget_s=120):
+def ground_axioms(pc, goal, cap=40):
+    """small-scope mode: replace the (few) quantified type axioms by their instances over the
+    ground terms of the right sort that occur in the query; quantifier-free afterwards"""
+    qs = [p for p in pc if z3.is_quantifier(p)]
+    rest = [p for p in pc if not z3.is_quantifier(p)]
+    if not qs:
+        return list(pc)
+    by_sort: dict = {}
+    seen = set()
+    todo = list(rest) + ([goal] if goal is not None else [])
+    while todo:
+        t = todo.pop()
+        if t.get_id() in seen:
+            continue
+        seen.add(t.get_id())
+        if z3.is_quantifier(t):
+            continue
+        if z3.is_app(t):
+            so = t.sort()
+            if so.kind() not in (z3.Z3_BOOL_SORT,) and not z3.is_int_value(t):
+                by_sort.setdefault(so.name() if so.kind() == z3.Z3_UNINTERPRETED_SORT else str(so), []).append(t)
+            todo.extend(t.children())
+    out = list(rest)
+    for q in qs:
+        if not q.is_forall():
+            continue
+        n = q.num_vars()
+        pools = []
+        for i in range(n):
+            so = q.var_sort(i)
+            key = so.name() if so.kind() == z3.Z3_UNINTERPRETED_SORT else str(so)
+            pools.append(by_sort.get(key, [])[: cap if n == 1 else 8])
+        import itertools
+
+        for combo in itertools.product(*pools):
+            # de Bruijn: variable 0 is the LAST bound variable
+            out.append(z3.substitute_vars(q.body(), *reversed(combo)))
+    return out
+
+
+def model_ok(model, pc, goal, axioms=()):
+    """every quantifier-free hypothesis true and the goal false under the model; the
+    quantified type axioms (which small-scope mode only instantiates on occurring terms) must
+    hold for EVERY element of the model's finite universes"""
+    import itertools
+
+    try:
+        for p in pc:
+            if z3.is_quantifier(p):
+                continue
+            if not z3.is_true(model.eval(p, model_completion=True)):
+                return False
+        if not z3.is_false(model.eval(goal, model_completion=True)):
+            return False
+        for q in axioms:
+            if not (z3.is_quantifier(q) and q.is_forall()):
+                continue
+            pools = []
+            ok = True
+            for i in range(q.num_vars()):
+                so = q.var_sort(i)
+                if so.kind() != z3.Z3_UNINTERPRETED_SORT:
+                    ok = False
+                    break
+                pools.append(model.get_universe(so) or [])
+            if not ok:
+                continue  # e.g. axioms over strings: checked on the occurring terms only
+            n = 0
+            for combo in itertools.product(*pools):
+                n += 1
+                if n > 4000:
+                    break
+                if not z3.is_true(model.eval(z3.substitute_vars(q.body(), *reversed(combo)), model_completion=True)):
+                    return False
+        return True
+    except Exception:  # noqa: BLE001
+        return False
+
+
+def fallback(solver: z3.Solver, name: str, budget_s=120, order=("cvc5", "z3old")):
     """Try external solvers on the SMT-LIB dump. -> (result, backend, seconds)"""
     os.makedirs(os.path.join(OUT, "smt"), exist_ok=True)
-    path = os.path.join(OUT, "smt", name.replace("/", "_").replace(":", "_")[:150] + ".smt2")
+    path = os.path.join(OUT, "smt", name.replace("/", "_").replace(":", "_")[:150] + f".{os.getpid()}.smt2")
     with open(path, "w") as f:
         f.write("(set-logic ALL)\n" + solver.to_smt2())
-    for backend, cmd in (
-        ("cvc5-1.0.3", ["/usr/bin/cvc5", "--strings-exp", f"--tlimit={budget_s * 1000}", path]),
-        ("z3-4.8.12", ["/usr/bin/z3", f"-T:{budget_s}", path]),
-    ):
+    cmds = {
+        "cvc5": ("cvc5-1.0.3", ["/usr/bin/cvc5", "--strings-exp", f"--tlimit={budget_s * 1000}", path]),
+        "z3old": ("z3-4.8.12", ["/usr/bin/z3", f"-T:{budget_s}", path]),
+    }
+    for backend, cmd in [cmds[o] for o in order]:
         t0 = time.time()
         try:
             p = subprocess.run(cmd, capture_output=True, text=True, timeout=budget_s + 10)
@@ -72,6 +152,10 @@ def fallback(solver: z3.Solver, name: str, budget_s=120):
         except Exception:
             res = "unknown"
         if res in ("unsat", "sat"):
+            try:
+                os.remove(path)
+            except OSError:
+                pass
             return res, backend, time.time() - t0
     return "unknown", "none", 0.0
 
@@ -186,7 +270,10 @@ def extract_inputs(ctx, model, entry):
     return inputs
 
 
-def worker(task):
+def worker(task, emit=None, skip=()):
+    """all obligations of one shard of one function / lemma.  `emit` (optional) is told about
+    every obligation before it starts and after it finishes, so that a supervisor can kill a
+    solver call that ignores its time-out and resume behind it (`skip`)."""
     mods, kind, key, k, n, timeout_ms = task
     t_start = time.time()
     try:
@@ -201,8 +288,11 @@ def worker(task):
     cov = None
     n_ax = len(ctx.axioms_z3)
     for i, o in enumerate(obls):
-        if i % n != k:
+        if i % n != k or i in skip:
             continue
+        if emit:
+            emit(("start", i, o.name, o.kind, o.line, o.note))
+            results = []
         if o.kind == "cover":
             # reachability is decided in small-scope mode (a model is what we want)
             try:
@@ -212,10 +302,12 @@ def worker(task):
                 cctx, cobls = cov[0], cov[1]
                 co = cobls[i]
                 assert co.name == o.name
-                r, dt, model, s = check(tuple(co.pc) + tuple(cov[2]), None, min(timeout_ms, 5000), want_model=False)
+                r, dt, model, s = check(tuple(ground_axioms(tuple(co.pc) + tuple(cov[2]), None)), None, min(timeout_ms, 2000), want_model=False)
             except Exception as e:
                 r, dt = "unknown", 0.0
             results.append(dict(name=o.name, line=o.line, kind="cover", result=r, s=round(dt, 3), backend="z3-5.1.0"))
+            if emit:
+                emit(("result", i, results[-1]))
             continue
         # staged attempts (cumulative, so load on the machine changes the time, not the verdict):
         # full hypotheses briefly; then without the quantified requires/invariants (dropping
@@ -247,6 +339,13 @@ def worker(task):
         rec = dict(name=o.name, line=o.line, kind="assert", note=o.note)
         if r == "sat" and has_quantifier(list(o.pc) + [o.goal]):
             r, model = "unknown", None  # a model under quantifiers is not trusted
+        if r == "unknown" and s is not None:
+            # another solver generation on the same SMT-LIB text, briefly: z3 4.8's sequence solver
+            # often closes in a second what z3 5.1 does not close in minutes (and vice versa)
+            r3, backend3, dt3 = fallback(s, o.name, budget_s=10, order=("z3old", "cvc5"))
+            dt += dt3
+            if r3 == "unsat":
+                r, backend = r3, backend3
         if r == "unknown":
             # (a) look for a small-scope counterexample (quantifiers expanded, recursion unrolled,
             # so a model is real); a ladder of scopes: the small one answers in milliseconds
@@ -258,7 +357,13 @@ def worker(task):
                     cctx, cobls, centry = cexs[K][0], cexs[K][1], cexs[K][2]
                     co = cobls[i]
                     assert co.name == o.name, (co.name, o.name)
-                    r2, dt2, model2, _ = check(tuple(co.pc) + tuple(cexs[K][5]), co.goal, min(timeout_ms, 30000))
+                    # the only quantifiers left in small-scope mode are the sidecar's type axioms:
+                    # model-based instantiation decides them; the model is validated below and replayed
+                    qf = ground_axioms(tuple(co.pc) + tuple(cexs[K][5]), co.goal)
+                    r2, dt2, model2, _ = check(tuple(qf), co.goal, min(timeout_ms, 30000))
+                    if r2 == "sat" and not model_ok(model2, qf, co.goal, [p for p in co.pc if z3.is_quantifier(p)]):
+                        r2 = "unknown"
+                        rec["small_scope_note"] = "model rejected: violates a quantified type axiom or does not falsify the goal"
                     dt += dt2
                     if r2 == "sat":
                         r, model = "sat", model2
@@ -312,13 +417,62 @@ def worker(task):
             rec["model"] = extract_inputs(ctx, model, entry)
             rec["have_model"] = model is not None
         results.append(rec)
+        if emit:
+            emit(("result", i, rec))
     return dict(key=key, kind=kind, shard=k, results=results, gen_s=round(gen_s, 3), notes=notes, paths=paths, n_obls=len(obls))
 
 
-def run_all(mods, contract_keys, lemma_names=(), jobs=16, shards=None, timeout_ms=None):
-    """-> list of worker results."""
+def _serve(conn):
+    """long-lived worker process: tasks in, progress events and a final summary out"""
+    while True:
+        try:
+            msg = conn.recv()
+        except EOFError:
+            return
+        if msg is None:
+            return
+        task, skip = msg
+        try:
+            res = worker(task, emit=conn.send, skip=skip)
+            res["results"] = []
+            conn.send(("done", res))
+        except Exception:  # noqa: BLE001
+            conn.send(("done", dict(key=task[2], kind=task[1], shard=task[3], crash=traceback.format_exc(), results=[], gen_s=0.0)))
+
+
+class _Slot:
+    def __init__(self, ctxm):
+        self.ctxm = ctxm
+        self.spawn()
+
+    def spawn(self):
+        self.conn, child = self.ctxm.Pipe()
+        self.proc = self.ctxm.Process(target=_serve, args=(child,), daemon=True)
+        self.proc.start()
+        child.close()
+        self.task = None
+
+    def kill(self):
+        try:
+            self.proc.kill()
+            self.proc.join(5)
+        except Exception:  # noqa: BLE001
+            pass
+        try:
+            self.conn.close()
+        except Exception:  # noqa: BLE001
+            pass
+
+
+def run_all(mods, contract_keys, lemma_names=(), jobs=16, shards=None, timeout_ms=None, deadline_s=None):
+    """-> list of worker results.  Supervised pool: an obligation whose solver call ignores its
+    time-out (or a generation that does not return) is killed after `deadline_s` and recorded as
+    `unknown` (never as refuted); the rest of that task is resumed in a fresh process."""
+    from multiprocessing.connection import wait
+
     shards = shards or {}
     timeout_ms = timeout_ms or TIMEOUT_MS
+    deadline_s = deadline_s or int(os.environ.get("PYVC_DEADLINE_S", str(8 * timeout_ms // 1000 + 60)))
     tasks = []
     for key in contract_keys:
         n = shards.get(key, 1)
@@ -331,5 +485,93 @@ def run_all(mods, contract_keys, lemma_names=(), jobs=16, shards=None, timeout_m
     if not tasks:
         return []
     ctxm = mp.get_context("spawn")
-    with ctxm.Pool(min(jobs, len(tasks))) as pool:
-        return pool.map(worker, tasks, chunksize=1)
+    state = {}  # task index -> dict(results, skip, cur, summary)
+    queue = list(range(len(tasks)))
+    for ti in queue:
+        state[ti] = dict(results=[], skip=set(), cur=None, summary=None, kills=0)
+    slots = [_Slot(ctxm) for _ in range(min(jobs, len(tasks)))]
+    pending = len(tasks)
+
+    def dispatch(slot):
+        if not queue:
+            return
+        ti = queue.pop(0)
+        slot.task = ti
+        slot.t0 = time.time()
+        state[ti]["cur"] = None
+        slot.conn.send((tasks[ti], frozenset(state[ti]["skip"])))
+
+    for sl in slots:
+        dispatch(sl)
+    while pending:
+        busy = [sl for sl in slots if sl.task is not None]
+        if not busy:
+            for sl in slots:
+                dispatch(sl)
+            if not any(sl.task is not None for sl in slots):
+                break
+            continue
+        ready = wait([sl.conn for sl in busy], timeout=1.0)
+        now = time.time()
+        for sl in busy:
+            ti = sl.task
+            st = state[ti]
+            dead = False
+            if sl.conn in ready:
+                try:
+                    while sl.conn.poll():
+                        ev = sl.conn.recv()
+                        if ev[0] == "start":
+                            st["cur"] = ev
+                            sl.t0 = now
+                        elif ev[0] == "result":
+                            st["results"].append(ev[2])
+                            st["skip"].add(ev[1])
+                            st["cur"] = None
+                            sl.t0 = now
+                        elif ev[0] == "done":
+                            st["summary"] = ev[1]
+                            sl.task = None
+                            pending -= 1
+                            dispatch(sl)
+                            break
+                except (EOFError, OSError):
+                    dead = True
+            if sl.task == ti and (dead or not sl.proc.is_alive() or now - sl.t0 > deadline_s):
+                # stuck or died: record the obligation in flight as unknown and resume behind it
+                why = "worker died" if (dead or not sl.proc.is_alive()) else f"killed after {deadline_s}s (solver ignored its time-out)"
+                sl.kill()
+                cur = st["cur"]
+                st["kills"] += 1
+                if cur is not None:
+                    _, i, name, kind, line, note = cur
+                    st["results"].append(dict(name=name, line=line, kind=kind if kind == "cover" else "assert", note=note, result="unknown", s=round(now - sl.t0, 1), backend=why))
+                    st["skip"].add(i)
+                    if st["kills"] <= 6:
+                        queue.insert(0, ti)
+                    else:
+                        st["summary"] = dict(key=tasks[ti][2], kind=tasks[ti][1], shard=tasks[ti][3], drift=f"generation / solving did not finish ({why}, repeatedly)", gen_s=0.0)
+                        pending -= 1
+                else:
+                    # nothing in flight: generation itself did not return
+                    st["summary"] = dict(key=tasks[ti][2], kind=tasks[ti][1], shard=tasks[ti][3], drift=f"VC generation did not finish: {why}", gen_s=round(now - sl.t0, 1))
+                    pending -= 1
+                sl.spawn()
+                dispatch(sl)
+    for sl in slots:
+        try:
+            sl.conn.send(None)
+        except Exception:  # noqa: BLE001
+            pass
+    for sl in slots:
+        sl.proc.join(2)
+        if sl.proc.is_alive():
+            sl.kill()
+    out = []
+    for ti in range(len(tasks)):
+        st = state[ti]
+        summ = st["summary"] or dict(key=tasks[ti][2], kind=tasks[ti][1], shard=tasks[ti][3], drift="no result", gen_s=0.0)
+        summ = dict(summ)
+        summ["results"] = sorted(st["results"], key=lambda r: (r.get("line", 0), r["name"]))
+        out.append(summ)
+    return out
